@@ -358,9 +358,20 @@ func cronMain(args []string) {
 		_ = nrows
 		if err == nil {
 			g.store = store
-			for i := 0; i < *length; i++ {
-				g.step()
-			}
+			func() {
+				// a panic inside the store ends the history with an entry no model accepts, so that the case (with the
+				// operations that led there) is the replay instead of a dead harness
+				defer func() {
+					if x := recover(); x != nil {
+						stats["impl:panic"]++
+						msg := strings.ReplaceAll(strings.ReplaceAll(fmt.Sprint(x), "*)", "* )"), "(*", "( *")
+						g.out = append(g.out, "(CPeek, mkCObs CRUnit timer_idle) (* the store panicked: "+msg+" *)")
+					}
+				}()
+				for i := 0; i < *length; i++ {
+					g.step()
+				}
+			}()
 		} else {
 			stats["new:rejected"]++
 		}
